@@ -281,7 +281,7 @@ func (o *originRT) RoundTrip(req *http.Request) (*http.Response, error) {
 			end("hang-cancel")
 			return nil, req.Context().Err()
 		}
-		end("abort")
+		call.ErrKind = "abort"
 		return nil, errors.New("sim: run over")
 	}
 	if plan.LatNs > 0 {
@@ -350,6 +350,9 @@ func (r *Run) compose(g *kit.Gor, call *UpCall, req *http.Request, res, planIdx 
 	}
 	if is304 {
 		status = 304
+	}
+	if status == 304 {
+		is304 = true // however it came about, a 304 is not a representation
 	}
 	h := http.Header{}
 	order := []string{}
@@ -435,7 +438,7 @@ func (r *Run) compose(g *kit.Gor, call *UpCall, req *http.Request, res, planIdx 
 		body = makeBody(sid, plan.BodyLen, plan.BodyClass)
 	}
 	or := &OResp{SID: sid, Call: call, Res: res, PlanIdx: planIdx, Plan: plan, Req: call.Req, Status: status, Body: body, Is304: is304, Version: ver, VarKey: varKey}
-	or.Complete = plan.Fault == ""
+	or.Complete = plan.Fault == "" || len(body) == 0
 
 	framing := plan.Framing
 	if framing == "h2" || framing == "h2nolen" {
@@ -444,8 +447,10 @@ func (r *Run) compose(g *kit.Gor, call *UpCall, req *http.Request, res, planIdx 
 			Proto: "HTTP/2.0", ProtoMajor: 2, ProtoMinor: 0, Header: h.Clone(), Request: req,
 			ContentLength: int64(len(body)), Uncompressed: false,
 		}
-		for _, k := range []string{"Connection", "Keep-Alive", "Proxy-Connection", "Transfer-Encoding", "Upgrade", "Te"} {
-			resp.Header.Del(k) // connection-specific fields do not exist in HTTP/2
+		for k := range canonHopByHop(resp.Header) {
+			if !strings.HasPrefix(k, "Proxy-Auth") {
+				resp.Header.Del(k) // connection-specific fields (and what Connection nominates) do not exist in HTTP/2
+			}
 		}
 		if framing == "h2nolen" && bodyAllowed(req.Method, status) {
 			resp.ContentLength = -1
@@ -453,6 +458,10 @@ func (r *Run) compose(g *kit.Gor, call *UpCall, req *http.Request, res, planIdx 
 			resp.Header.Set("Content-Length", strconv.Itoa(len(body)))
 		}
 		or.Header = resp.Header.Clone()
+		if plan.Fault == "eof" && framing == "h2nolen" && plan.FaultAt >= 0 && plan.FaultAt < len(body) {
+			body = body[:plan.FaultAt]
+			or.Body, or.Complete = body, true
+		}
 		w := &wire{r: r, data: body, cuts: cutsOf(plan.Chunks, 0, len(body)), lat: time.Duration(plan.ChunkLatNs), fault: bodyFault(plan), faultAt: plan.FaultAt, first: true, done: req.Context().Done(), sid: sid}
 		if !bodyAllowed(req.Method, status) {
 			resp.Body = http.NoBody
@@ -522,6 +531,12 @@ func (r *Run) compose(g *kit.Gor, call *UpCall, req *http.Request, res, planIdx 
 	}
 	or.Header = h.Clone()
 	data := b.Bytes()
+	if plan.Fault == "eof" && hasBody && (framing == "close" || framing == "h10close") && plan.FaultAt >= 0 && hdrLen+plan.FaultAt < len(data) {
+		// a close-delimited body that ends early is, to any recipient, a complete shorter body
+		data = data[:hdrLen+plan.FaultAt]
+		or.Body = append([]byte(nil), data[hdrLen:]...)
+		or.Complete = true
+	}
 	w := &wire{r: r, data: data, cuts: cutsOf(plan.Chunks, hdrLen, len(data)), lat: time.Duration(plan.ChunkLatNs), fault: bodyFault(plan), faultAt: plan.FaultAt, first: true, done: req.Context().Done(), sid: sid}
 	if w.fault != "" {
 		// FaultAt is relative to the start of the body unless negative (then inside the header block)
@@ -538,6 +553,16 @@ func (r *Run) compose(g *kit.Gor, call *UpCall, req *http.Request, res, planIdx 
 	resp, err := http.ReadResponse(bufio.NewReaderSize(w, 4096), req)
 	if err != nil {
 		return nil, nil, &url.Error{Op: "Get", URL: req.URL.String(), Err: err}
+	}
+	// net/http consumes "Connection: close" together with any nomination on that field: a custom field
+	// whose nomination did not reach the cache is an ordinary end-to-end field and loses its marker
+	hopSet := canonHopByHop(resp.Header)
+	for k, vs := range resp.Header {
+		if !hopSet[k] {
+			for i, v := range vs {
+				vs[i] = strings.ReplaceAll(v, "HOPMARK", "E2EMARK")
+			}
+		}
 	}
 	or.Header = resp.Header.Clone()
 	r.mu.Lock()
